@@ -20,6 +20,7 @@ func checkC02(ci interface{}, st *Stats) error {
 	g.number()
 	lr := classifyGrammar(g, st)
 	probe := NewProbe()
+	probe.InLen = len(in)
 	b := Build(g, BuildOpts{MemoRules: c.memoRules(), Probe: probe})
 	for nt := range g.Rules {
 		for i := 0; i <= len(in); i++ {
@@ -73,7 +74,7 @@ func init() {
 		NewCase: func() interface{} { return &GCase{} },
 		Gen: func(t *rapid.T) interface{} {
 			o := genOptsC01()
-			o.SkWeights = []int{2, 2, 2, 4, 4, 4, 3, 1, 0, 5}
+			o.SkWeights = []int{2, 2, 2, 4, 4, 4, 3, 1, 0, 5, 6}
 			if rapid.IntRange(0, 4).Draw(t, "extramemo") == 0 {
 				o.ExtraMemo = 4
 			}
